@@ -184,8 +184,8 @@ Qed.
 
 Lemma sinv_mstep c k st o l st' : mstep c k st o l st' -> sinv c st -> sinv c st'.
 Proof.
-  intros M H. destruct M.
-  - intros j. eapply uinv_frame; [apply H1|apply H].
+  intros M H. destruct M as [st0 st0' Hl Hf|st0 o0 Hc|st0 i0 w0 u0' o0 ag0 Hk Hi Hid Hs|st0 i0 q0 e0 Hk Hi Hn Ha|st0 i0 mfs0 Hk Hm2 Hm6|st0 i0 now0 q0 seed0 Hk].
+  - intros j. eapply uinv_frame; [apply Hf|apply H].
   - exact H.
   - apply sinv_upd; [exact H|]. intros Hu. eapply uinv_emit; eassumption.
   - exact H.
@@ -194,15 +194,11 @@ Proof.
 Qed.
 
 Lemma sinv_msteps c k st o l st' : msteps c k st o l st' -> sinv c st -> sinv c st'.
-Proof. intros M. induction M; intros H; [exact H|]. apply IHM. eapply sinv_mstep; eassumption. Qed.
+Proof. intros M. induction M as [st|st o1 l1 st1 o2 l2 st2 M1 M2 IH]; intros Hi; [exact Hi|]. apply IH. eapply sinv_mstep; eassumption. Qed.
 
 Lemma sinv_init c ips : sinv c (init_state ips).
 Proof.
-  intros i. unfold init_state, getu.
-  destruct (Nat.lt_ge_cases i (length ips)) as [L|L].
-  - rewrite (nth_indep (map user_init ips) (user_init 0) (user_init 0)) by (rewrite map_length; exact L).
-    rewrite map_nth. apply uinv_init.
-  - rewrite nth_overflow by (rewrite map_length; exact L). apply uinv_init.
+  intros i. unfold init_state, getu. rewrite (map_nth user_init ips 0 i). apply uinv_init.
 Qed.
 
 (* ---- reachable states -------------------------------------------------------------------------------------- *)
@@ -269,28 +265,28 @@ Definition answer_ok (st : sstate) (o : out) : Prop :=
 Lemma fragsize_mstep_true st o l st' :
   mstep c true st o l st' -> forall i, u_fragsize (getu st' i) = u_fragsize (getu st i).
 Proof.
-  intros M i. destruct M; try reflexivity; try discriminate.
-  - destruct (H0 i) as [R _]. unfold rview in R. inversion R. reflexivity.
-  - rewrite getu_upd. destruct ((i0 =? i)%nat && (i0 <? length st)%nat) eqn:E; [|reflexivity].
+  intros M i. destruct M as [st0 st0' Hl Hf|st0 o0 Hc|st0 i0 w0 u0' o0 ag0 Hk Hi Hid Hs|st0 i0 q0 e0 Hk Hi Hn Ha|st0 i0 mfs0 Hk Hm2 Hm6|st0 i0 now0 q0 seed0 Hk]; try reflexivity; try discriminate.
+  - destruct (Hf i) as [R _]. unfold rview in R. inversion R. reflexivity.
+  - rewrite getu_upd. destruct ((i0 =? i)%nat && (i0 <? length st0)%nat) eqn:E; [|reflexivity].
     apply andb_prop in E. destruct E as [E _]. apply Nat.eqb_eq in E. subst i0.
-    destruct (emit_cache _ _ _ _ _ H2) as (_ & _ & F). exact F.
+    destruct (emit_cache _ _ _ _ _ Hs) as (_ & _ & F). exact F.
 Qed.
 
 Lemma answers_mstep_true st o l st' :
   mstep c true st o l st' -> sinv c st -> Forall (answer_ok st) o.
 Proof.
-  intros M Hinv. destruct M; try discriminate.
+  intros M Hinv. destruct M as [st0 st0' Hl Hf|st0 o0 Hc|st0 i0 w0 u0' o0 ag0 Hk Hi Hid Hs|st0 i0 q0 e0 Hk Hi Hn Ha|st0 i0 mfs0 Hk Hm2 Hm6|st0 i0 now0 q0 seed0 Hk]; try discriminate.
   - constructor.
-  - apply Forall_forall. intros x Hx. left. rewrite Forall_forall in H. apply H, Hx.
-  - destruct (emit_bound _ _ _ _ _ H2) as (pktb & Hp & Ho & _).
-    destruct (Hinv i) as (_ & _ & Hh).
-    assert (Hn : nslot c (h_name (getq (getu st i) w)) = Some i).
-    { destruct Hh as [A B]. destruct w; [apply A|apply B]; exact H1. }
+  - apply Forall_forall. intros x Hx. left. rewrite Forall_forall in Hc. apply Hc, Hx.
+  - destruct (emit_bound _ _ _ _ _ Hs) as (pktb & Hp & Ho & _).
+    destruct (Hinv i0) as (_ & _ & Hh).
+    assert (Hn : nslot c (h_name (getq (getu st0 i0) w0)) = Some i0).
+    { destruct Hh as [A B]. destruct w0; [apply A|apply B]; exact Hid. }
     apply Forall_forall. intros x Hx. rewrite Forall_forall in Ho. destruct (Ho x Hx) as (id & to & ->).
-    right. exists (getq (getu st i) w), id, to, pktb, (u_downenc (getu st i)), i. repeat split; assumption.
+    right. exists (getq (getu st0 i0) w0), id, to, pktb, (u_downenc (getu st0 i0)), i0. repeat split; assumption.
   - constructor; [|constructor]. right.
-    destruct (Hinv i) as (_ & Ck & _). destruct (replay_bound _ _ _ _ Ck H2) as [D _].
-    unfold mk_answer. eexists q, (h_id q), (h_from q), _, _, i. repeat split; try eassumption.
+    destruct (Hinv i0) as (_ & Ck & _). destruct (replay_bound _ _ _ _ Ck Ha) as [D _].
+    unfold mk_answer. eexists q0, (h_id q0), (h_from q0), _, _, i0. repeat split; try eassumption.
 Qed.
 
 Lemma answer_ok_same_frag st st' x :
@@ -301,7 +297,7 @@ Proof.
 Qed.
 
 Lemma mstep_length k st o l st' : mstep c k st o l st' -> length st' = length st.
-Proof. intros M. destruct M; try reflexivity; try assumption; apply upd_length. Qed.
+Proof. intros M. destruct M as [st0 st0' Hl Hf|st0 o0 Hc|st0 i0 w0 u0' o0 ag0 Hk Hi Hid Hs|st0 i0 q0 e0 Hk Hi Hn Ha|st0 i0 mfs0 Hk Hm2 Hm6|st0 i0 now0 q0 seed0 Hk]; try reflexivity; try assumption; apply upd_length. Qed.
 
 Lemma answers_msteps_true st o l st' :
   msteps c true st o l st' -> sinv c st -> Forall (answer_ok st) o.
@@ -318,7 +314,7 @@ Lemma answers_msteps_false st o l st' :
 Proof.
   intros M. induction M as [st|st o1 l1 st1 o2 l2 st2 M1 M2 IH]; [constructor|].
   apply Forall_app. split; [|exact IH].
-  destruct M1; try discriminate; try constructor; assumption.
+  destruct M1 as [st0 st0' Hl Hf|st0 o0 Hc|st0 i0 w0 u0' o0 ag0 Hk Hi Hid Hs|st0 i0 q0 e0 Hk Hi Hn Ha|st0 i0 mfs0 Hk Hm2 Hm6|st0 i0 now0 q0 seed0 Hk]; try discriminate; try constructor; assumption.
 Qed.
 
 Theorem step_answers_ok st e :
@@ -344,11 +340,11 @@ Lemma fragsize_msteps_false st o l st' :
 Proof.
   intros M. induction M as [st|st o1 l1 st1 o2 l2 st2 M1 M2 IH]; intros i; [left; reflexivity|].
   destruct (IH i) as [E|[E|E]]; [|right; left; exact E|right; right; exact E]. rewrite E. clear IH E M2.
-  destruct M1; try discriminate; try (left; reflexivity).
-  - left. destruct (H0 i) as [R _]. unfold rview in R. inversion R. reflexivity.
-  - rewrite getu_upd. destruct ((i0 =? i)%nat && (i0 <? length st)%nat); [|left; reflexivity].
+  destruct M1 as [st0 st0' Hl Hf|st0 o0 Hc|st0 i0 w0 u0' o0 ag0 Hk Hi Hid Hs|st0 i0 q0 e0 Hk Hi Hn Ha|st0 i0 mfs0 Hk Hm2 Hm6|st0 i0 now0 q0 seed0 Hk]; try discriminate; try (left; reflexivity).
+  - left. destruct (Hf i) as [R _]. unfold rview in R. inversion R. reflexivity.
+  - rewrite getu_upd. destruct ((i0 =? i)%nat && (i0 <? length st0)%nat); [|left; reflexivity].
     right. left. unfold n_accept. cbn. lia.
-  - rewrite getu_upd. destruct ((i0 =? i)%nat && (i0 <? length st)%nat); [|left; reflexivity].
+  - rewrite getu_upd. destruct ((i0 =? i)%nat && (i0 <? length st0)%nat); [|left; reflexivity].
     right. right. reflexivity.
 Qed.
 
